@@ -11,12 +11,23 @@ use std::sync::{Arc, Mutex};
 /// An open file description: the offset is shared between `try_clone`d handles.
 #[derive(Debug)]
 struct Desc {
+    id: u64,
     ino: u64,
     offset: u64,
     read: bool,
     write: bool,
     append: bool,
 }
+
+impl Drop for Desc {
+    fn drop(&mut self) {
+        // Last handle of the open file description closed (or the process is
+        // being torn down): its advisory locks go.
+        mach::flock_release(self.id);
+    }
+}
+
+pub use std::fs::TryLockError;
 
 #[derive(Debug)]
 pub struct File {
@@ -77,6 +88,7 @@ impl File {
         let ino = mach::fs_open(path, how, kind)?;
         Ok(File {
             desc: Arc::new(Mutex::new(Desc {
+                id: mach::new_desc_id(),
                 ino,
                 offset: 0,
                 read: how.read || !(how.write || how.append),
@@ -149,6 +161,46 @@ impl File {
     pub fn set_len(&self, len: u64) -> io::Result<()> {
         let ino = self.desc.lock().unwrap().ino;
         mach::fs_set_len(ino, len)
+    }
+
+    /// flock(2): exclusive, blocking.
+    pub fn lock(&self) -> io::Result<()> {
+        let (id, ino) = self.ids();
+        mach::fs_flock(ino, id, true, true).map(|_| ())
+    }
+
+    pub fn lock_shared(&self) -> io::Result<()> {
+        let (id, ino) = self.ids();
+        mach::fs_flock(ino, id, false, true).map(|_| ())
+    }
+
+    pub fn try_lock(&self) -> Result<(), TryLockError> {
+        let (id, ino) = self.ids();
+        match mach::fs_flock(ino, id, true, false) {
+            Ok(true) => Ok(()),
+            Ok(false) => Err(TryLockError::WouldBlock),
+            Err(e) => Err(TryLockError::Error(e)),
+        }
+    }
+
+    pub fn try_lock_shared(&self) -> Result<(), TryLockError> {
+        let (id, ino) = self.ids();
+        match mach::fs_flock(ino, id, false, false) {
+            Ok(true) => Ok(()),
+            Ok(false) => Err(TryLockError::WouldBlock),
+            Err(e) => Err(TryLockError::Error(e)),
+        }
+    }
+
+    pub fn unlock(&self) -> io::Result<()> {
+        let (id, _) = self.ids();
+        mach::flock_release(id);
+        Ok(())
+    }
+
+    fn ids(&self) -> (u64, u64) {
+        let d = self.desc.lock().unwrap();
+        (d.id, d.ino)
     }
 
     pub fn try_clone(&self) -> io::Result<File> {
